@@ -236,3 +236,28 @@ func e1paramaborts(mod string) {
 		}
 	}
 }
+
+// e1unchecked: state effects whose error is not known nil at the end of a committed path — a debugging aid.
+func e1unchecked(mod string) {
+	e := &Env{overlay: cliOverlay, progs: map[string]*Program{}, models: map[string]*Model{}}
+	m := e.Model(mod)
+	r := RunE1(m)
+	for _, h := range r.Handlers {
+		seen := map[string]bool{}
+		for _, o := range h.Outs {
+			for i := range o.St.events {
+				ev := &o.St.events[i]
+				if !isEffect(ev) || ev.ErrID == 0 || !inScope(o, ev) {
+					continue
+				}
+				if o.St.errs[ev.ErrID] != 1 {
+					k := fmt.Sprintf("%s: %s errstate=%d kind=%v", h.Key, describeEvent(o.St, ev), o.St.errs[ev.ErrID], o.Kind)
+					if !seen[k] {
+						seen[k] = true
+						fmt.Println(k)
+					}
+				}
+			}
+		}
+	}
+}
